@@ -5,7 +5,7 @@ CONSTANTS
  ExpKinds = {"all","none","r*"}
  ReKinds = {"none","*a"}
  Types = {"rules","templates"}
- MaxOps = 3
+ MaxOps = 4
  MaxDecl = 2
  NoCleanup = FALSE
 INIT Init
